@@ -5,6 +5,7 @@ All theorems are about `Ampverif.Gen.C20.*`, which is REGENERATED from
 `/repo/src/ampform/kinematics/phasespace.py` on every run. Only property theorems live here.
 -/
 import Ampverif.Gen.C20
+import Ampverif.Lemmas.C20Frame
 import Mathlib.Analysis.Real.Sqrt
 import Mathlib.Tactic.Ring
 import Mathlib.Tactic.Linarith
@@ -117,6 +118,59 @@ theorem indicator_event
   rw [third_mandelstam_event E1 (-(x2 + x3)) (-(y2 + y3)) (-(z2 + z3)) E2 x2 y2 z2 E3 x3 y3 z3
     m0 m1 m2 m3 hm0 h1 h2 h3]
   rw [if_pos (kibble_event_nonpos E1 E2 x2 y2 z2 E3 x3 y3 z3 m0 m1 m2 m3 h0 h1 h2 h3)]
+
+/-! ### Frame-independent version
+
+The same facts for an event given in ANY frame: three four-momenta whose sum is time-like. -/
+
+section AnyFrame
+open Ampverif.Lemmas.C20Frame
+
+/-- In any frame, `Kibble = 64 (H₂₃² − H₂₂H₃₃)` with `H_ij = ⟨P,p_i⟩⟨P,p_j⟩ − ⟨P,P⟩⟨p_i,p_j⟩`. -/
+theorem kibble_any_frame_eq (p1 p2 p3 : V4) (m0 m1 m2 m3 : ℝ)
+    (h0 : m0 ^ 2 = V4.sq (p1 + p2 + p3)) (h1 : m1 ^ 2 = V4.sq p1) (h2 : m2 ^ 2 = V4.sq p2)
+    (h3 : m3 ^ 2 = V4.sq p3) :
+    Kibble (V4.sq (p2 + p3)) (V4.sq (p1 + p3)) (V4.sq (p1 + p2)) m0 m1 m2 m3
+      = 64 * (H (p1 + p2 + p3) p2 p3 ^ 2
+          - H (p1 + p2 + p3) p2 p2 * H (p1 + p2 + p3) p3 p3) := by
+  unfold Kibble Kallen
+  rw [h0, h1, h2, h3]
+  unfold H V4.sq V4.dot
+  simp only [V4.add_t, V4.add_x, V4.add_y, V4.add_z]
+  ring
+
+/-- `Kibble ≤ 0` for every three four-momenta with a time-like sum, in any frame. -/
+theorem kibble_event_nonpos_any_frame (p1 p2 p3 : V4) (m0 m1 m2 m3 : ℝ)
+    (hpos : 0 < V4.sq (p1 + p2 + p3))
+    (h0 : m0 ^ 2 = V4.sq (p1 + p2 + p3)) (h1 : m1 ^ 2 = V4.sq p1) (h2 : m2 ^ 2 = V4.sq p2)
+    (h3 : m3 ^ 2 = V4.sq p3) :
+    Kibble (V4.sq (p2 + p3)) (V4.sq (p1 + p3)) (V4.sq (p1 + p2)) m0 m1 m2 m3 ≤ 0 := by
+  rw [kibble_any_frame_eq p1 p2 p3 m0 m1 m2 m3 h0 h1 h2 h3]
+  have := H_cauchy_schwarz (p1 + p2 + p3) p2 p3 hpos
+  linarith
+
+/-- The third Mandelstam variable and the indicator, in any frame. -/
+theorem indicator_event_any_frame (p1 p2 p3 : V4) (m0 m1 m2 m3 ov : ℝ)
+    (hpos : 0 < V4.sq (p1 + p2 + p3))
+    (h0 : m0 ^ 2 = V4.sq (p1 + p2 + p3)) (h1 : m1 ^ 2 = V4.sq p1) (h2 : m2 ^ 2 = V4.sq p2)
+    (h3 : m3 ^ 2 = V4.sq p3) :
+    thirdMandelstam (V4.sq (p2 + p3)) (V4.sq (p1 + p3)) m0 m1 m2 m3 = V4.sq (p1 + p2) ∧
+    isWithinPhasespace (V4.sq (p2 + p3)) (V4.sq (p1 + p3)) m0 m1 m2 m3 ov = 1 := by
+  have ht : thirdMandelstam (V4.sq (p2 + p3)) (V4.sq (p1 + p3)) m0 m1 m2 m3 = V4.sq (p1 + p2) := by
+    unfold thirdMandelstam
+    rw [h0, h1, h2, h3]
+    unfold V4.sq V4.dot
+    simp only [V4.add_t, V4.add_x, V4.add_y, V4.add_z]
+    ring
+  refine ⟨ht, ?_⟩
+  rw [indicator_def, ht,
+    if_pos (kibble_event_nonpos_any_frame p1 p2 p3 m0 m1 m2 m3 hpos h0 h1 h2 h3)]
+
+example : ∃ p1 p2 p3 : V4, 0 < V4.sq (p1 + p2 + p3) ∧ 0 < V4.sq p1 ∧ p1.z ≠ 0 :=
+  ⟨⟨13, -3, -4, 2⟩, ⟨5, 3, 0, 0⟩, ⟨5, 0, 4, 0⟩, by norm_num [V4.sq, V4.dot], by norm_num [V4.sq, V4.dot],
+    by norm_num⟩
+
+end AnyFrame
 
 /-! ### Dalitz-plot limits (PDG kinematics review)
 
